@@ -1,5 +1,164 @@
-/- Engine `dispatch` (C04): not built yet. -/
+/-
+  Engine `dispatch` (C04).  Same line protocol as harness/dispatch.cpp:
+
+    D <table> <locsize> <msg>;<msg>;… [tokens for the oracle, ignored]
+        <table> = T<0|1>[<entry>,<entry>,…]     0/1: the table has a default handler
+        <entry> = L<name-hex>                    port without sub-table
+                | N<name-hex><table>             port with sub-table (recursion callback)
+        <msg>   = <B|S><address-hex>:<tags-hex>  B: dispatch(msg, d, true), S: dispatch(msg, d)
+      -> per message  <with location buffer>/<without>,  messages separated by '|':
+           [<call>;<call>;…]m<matches>p<d.port|->l<loc-hex> / [<call>;…]p<d.port|->
+           <call> = <P|D><path>@<offset of msg>,<loc-hex|NULL>,<obj path>,<d.port|->
+           <path> = table indices joined by '.', 'r' for the root
+         or `oob` for a message on which the model leaves a buffer.
+    H <table>
+      -> which lookup strategy each table of the tree gets (pre-order): `h` hashed, `l` linear
+         (not compared with the implementation; used by the generator statistics and the tests)
+-/
+import RtoscModel.Ports.Dispatch
 import Driver.Common
 namespace Driver.DispatchEngine
-def engine : Driver.Engine := Driver.stateless (fun _ => "unimplemented")
+open Rtosc Rtosc.Ports Rtosc.Ports.Hash
+
+def slack : Nat := 32
+
+/-! ### table parser -/
+
+def isHexChar (c : Char) : Bool := (hexVal c).isSome
+
+/-- `T<d>[` … `]`; fuel = number of characters -/
+partial def parseTable : List Char → Option (Ports × List Char)
+  | 'T' :: dc :: '[' :: r =>
+    let dflt := dc == '1'
+    let rec entries (cs : List Char) (acc : List (Bytes × Option Ports)) : Option (List (Bytes × Option Ports) × List Char) :=
+      match cs with
+      | ']' :: r => some (acc.reverse, r)
+      | ',' :: r => entries r acc
+      | k :: r =>
+        if k == 'L' || k == 'N' then
+          let hx := r.takeWhile isHexChar
+          let r' := r.dropWhile isHexChar
+          let (hx, r') := if hx.isEmpty && r'.head? == some '-' then (['-'], r'.drop 1) else (hx, r')
+          match ofHex (String.ofList hx) with
+          | none => none
+          | some name =>
+            if k == 'L' then entries r' ((name, none) :: acc)
+            else match parseTable r' with
+              | none => none
+              | some (child, r'') => entries r'' ((name, some child) :: acc)
+        else none
+      | [] => none
+    match entries r [] with
+    | none => none
+    | some (es, r') =>
+      let tab := es.foldr (fun e t => match e with
+                                       | (n, none) => Table.leaf n t
+                                       | (n, some c) => Table.node n c.tab c.dflt t) Table.nil
+      some ({ tab := tab, dflt := dflt }, r')
+  | _ => none
+
+/-! ### tables are built once per op line -/
+
+/-- the names of every table of the tree -/
+def allNames : Table → List (List Bytes)
+  | .nil => []
+  | .leaf _ r => allNames r
+  | .node _ c _ r => c.names :: (allNames c ++ allNames r)
+
+/-- `mk` with the results for the given tables precomputed (`cached_eq` in Proofs: it is
+    the same function) -/
+def cachedMk (f : List Bytes → Option Matcher) (cache : List (List Bytes × Option Matcher))
+    (names : List Bytes) : Option Matcher :=
+  match cache.lookup names with
+  | some r => r
+  | none => f names
+
+def buildCache (f : List Bytes → Option Matcher) (P : Ports) : List (List Bytes × Option Matcher) :=
+  ((P.tab.names :: allNames P.tab).eraseDups).map (fun n => (n, f n))
+
+/-! ### printing -/
+
+def showPath (p : List Nat) : String :=
+  if p.isEmpty then "r" else ".".intercalate (p.map toString)
+
+def showPort : Option (List Nat) → String
+  | none => "-"
+  | some p => "P" ++ showPath p
+
+def showWho : Who → String
+  | .port p => "P" ++ showPath p
+  | .dflt t => "D" ++ showPath t
+
+def showLoc : Option Bytes → String
+  | none => "NULL"
+  | some s => toHex s
+
+def showCall (total : Nat) (c : Call) : String :=
+  s!"{showWho c.who}@{total - c.m.length},{showLoc c.loc},{showPath c.obj},{showPort c.dport}"
+
+def showCalls (total : Nat) (l : List Call) : String :=
+  "[" ++ ";".intercalate (l.map (showCall total)) ++ "]"
+
+def zeros (n : Nat) : Bytes := List.replicate n 0
+
+def buildMsg (addr tags : Bytes) : Bytes :=
+  Match.mkMsg addr tags (zeros ((tags.map Match.zeroArgSize).sum + slack))
+
+def oneMsg (mk : List Bytes → Option Matcher) (P : Ports) (locSize : Nat) (tok : String) : String :=
+  match tok.toList with
+  | k :: rest =>
+    match (String.ofList rest).splitOn ":" with
+    | [a, t] =>
+      match ofHex a, ofHex t with
+      | some addr, some tags =>
+        let base := k == 'B'
+        let msg := buildMsg addr tags
+        let dL : RtData := { loc := some [], locSize := locSize, locHigh := 0, obj := [], nmatches := 0, port := none }
+        let dN : RtData := { dL with loc := none, locSize := 0 }
+        match dispatch mk P msg dL base, dispatch mk P msg dN base with
+        | some (l1, d1), some (l2, d2) =>
+          if d1.locHigh > locSize then "oob"
+          else s!"{showCalls msg.length l1}m{d1.nmatches}p{showPort d1.port}l{showLoc d1.loc}/{showCalls msg.length l2}p{showPort d2.port}"
+        | _, _ => "oob"
+      | _, _ => "bad-msg"
+    | _ => "bad-msg"
+  | [] => "bad-msg"
+
+def opD (tab : String) (locSize : Nat) (msgs : String) : String :=
+  match parseTable tab.toList with
+  | some (P, []) =>
+    let f := matcherOf realSearch
+    let cache := buildCache f P
+    let mk := cachedMk f cache
+    "|".intercalate ((msgs.splitOn ";").map (oneMsg mk P locSize))
+  | _ => "bad-op"
+
+def strategies (f : List Bytes → Option Matcher) : Table → List String
+  | .nil => []
+  | .leaf _ r => strategies f r
+  | .node _ c _ r =>
+    (match f c.names with
+     | none => "x"
+     | some pm => if pm.pos.isEmpty then "l" else "h") :: (strategies f c ++ strategies f r)
+
+def opH (tab : String) : String :=
+  match parseTable tab.toList with
+  | some (P, []) =>
+    let f := matcherOf realSearch
+    let top := match f P.tab.names with
+      | none => "x"
+      | some pm => if pm.pos.isEmpty then "l" else "h"
+    "H " ++ String.join (top :: strategies f P.tab)
+  | _ => "bad-op"
+
+def step (line : String) : String :=
+  match words line with
+  | "D" :: tab :: ls :: msgs :: _ =>
+    match ls.toNat? with
+    | some locSize => opD tab locSize msgs
+    | none => "bad-op"
+  | "H" :: tab :: _ => opH tab
+  | _ => "bad-op"
+
+def engine : Driver.Engine := Driver.stateless step
 end Driver.DispatchEngine
